@@ -81,7 +81,7 @@ fn run_mode(mode: &str, port: u16, conns: &[(bool, Vec<String>)], keep: &[bool],
         let log = log.clone();
         b.pre_routing_hook(move |req, res| {
             let port = res.get_stream().peer_addr().map(|a| a.port()).unwrap_or(0);
-            {
+            if req.headers.get("x-nolog").is_none() {
                 use std::os::unix::io::AsRawFd;
                 let fd = res.get_stream().as_raw_fd();
                 let mut l = log.lock().unwrap();
@@ -195,8 +195,24 @@ fn run_mode(mode: &str, port: u16, conns: &[(bool, Vec<String>)], keep: &[bool],
     stop.store(true, Ordering::SeqCst);
     let _ = connect(Duration::from_millis(500));
     std::thread::sleep(Duration::from_millis(30));
-    // connections that were kept open across StopAccepting are closed by the client only now
+    // connections that were kept open across StopAccepting: in one history in three the server is first left alone for 1.3 s
+    // (longer than serve_epoll's reclaim interval) and must then still serve a request on each of them (round-6 seed C15-l: the
+    // loop left on its first quiet interval); they are closed by the client only after that
     let mut held_ids: Vec<usize> = held.iter().map(|h| h.0).collect();
+    let quiet = !held.is_empty() && (conns.len() + conns.iter().map(|c| c.1.len()).sum::<usize>()) % 3 == 0;
+    if quiet {
+        std::thread::sleep(Duration::from_millis(1300));
+        for (ci, s) in held.iter_mut() {
+            // (only connections the server has left open; the extra request is not entered in the hook log)
+            if !transcripts[*ci].ends_with("|OPEN") { continue; }
+            let _ = s.write_all(b"GET /none?after-stop HTTP/1.1\r\nx-nolog: 1\r\n\r\n");
+            s.set_read_timeout(Some(Duration::from_millis(3000))).unwrap();
+            let mut rbuf = Vec::new();
+            let r = read_one(s, &mut rbuf);
+            let want = format!("200,{},k", hex(b"GET /none after-stop -"));
+            if r != want { transcripts[*ci] = format!("{}|NOT-SERVED-AFTER-STOP({})", transcripts[*ci], r); }
+        }
+    }
     drop(held);
     // now the deferred reads of the Q connections, then their close
     for (ci, mut s, nr) in queued {
@@ -387,6 +403,34 @@ pub fn gen(ctx: &Ctx) {
         let case = format!("P:{}", steps.join(";"));
         let r = run(&case);
         out.emit(&case, &r, "pipelined", true);
+    }
+    // long pipelines: 40..80 small requests in ONE write (they fit the default 4 KiB head buffer): every one is answered by every
+    // mode - in epoll mode by one job, since nothing is left in the socket to wake the loop again (round-6 seeds C14-k / C17-k
+    // capped the requests per job)
+    for _ in 0..(if ctx.thorough { 10 } else { 2 }) {
+        let k = rng.range(40, 80) as usize;
+        let mut all: Vec<u8> = Vec::new();
+        for j in 0..k { all.extend(format!("GET /none?{j} HTTP/1.1\r\n\r\n").as_bytes()); }
+        let mut steps: Vec<String> = vec![format!("D{}", hex(&all))];
+        for _ in 0..k { steps.push("R".into()); }
+        let case = format!("P:{}", steps.join(";"));
+        let r = run(&case);
+        out.emit(&case, &r, "long-pipeline", true);
+    }
+    // a close signalled by the response, or by a hook answer, with a further request pipelined behind it in the same segment: the
+    // request behind the close is not served, in any mode (round-6 seeds C09-k / C16-k: the epoll job went on with the carry)
+    for first in [&b"GET /close HTTP/1.1\r\n\r\n"[..], b"GET /none HTTP/1.1\r\nx-hook: answer-close\r\n\r\n", b"GET /closer HTTP/1.1\r\n\r\n", b"GET /none HTTP/1.1\r\nConnection: close\r\n\r\n"] {
+        let mut all = first.to_vec(); all.extend(b"GET /none?behind HTTP/1.1\r\n\r\n");
+        let case = format!("P:D{};R;R", hex(&all));
+        let r = run(&case);
+        out.emit(&case, &r, "pipelined-behind-close", true);
+    }
+    // a carried prefix that is already malformed but has no blank line yet: 400 at once in every mode (round-6 seed C03-l)
+    {
+        let mut all = b"GET /none?a HTTP/1.1\r\n\r\n".to_vec(); all.extend(b"GET /b HTTP/1.1\r\nthis header line has no colon\r\n");
+        let case = format!("P:D{};R;R", hex(&all));
+        let r = run(&case);
+        out.emit(&case, &r, "pipelined-malformed-prefix", true);
     }
     // the close-signal histories of `modes09`, once
     close_signal_histories(ctx, &mut rng, &mut out, 1);
